@@ -9,6 +9,7 @@
 // Hints are the implementation's nondeterministic choices the model must follow (unordered_map iteration
 // order at Serialize, the values of insecure_rand draws in GetAddr_, the address Select_ returned).
 #include <drv_common.h>
+#include <unistd.h>
 #include <algorithm>
 #include <map>
 #include <set>
@@ -371,5 +372,7 @@ int main(int argc, char** argv)
         d.U.print_oracle();
         return 0;
     }
-    return vd::main_loop([&](const std::vector<std::string>& w, const std::string&) -> std::string { return d.run(w); });
+    // a state whose counters disagree with its tables can make Select_ spin forever: give every script a deadline (the process dies with
+    // SIGALRM, which the runner records as a crash of that case)
+    return vd::main_loop([&](const std::vector<std::string>& w, const std::string&) -> std::string { alarm(60); std::string r = d.run(w); alarm(0); return r; });
 }
